@@ -36,6 +36,10 @@ type MwSpec struct {
 	From   int64             `json:"from,omitempty"` // seconds
 	To     int64             `json:"to,omitempty"`
 	Filter *simrt.FilterSpec `json:"filter,omitempty"`
+	// Filter2: the allow/deny matcher is built from a filter LIST (Filter,
+	// Filter2) - an event matches when it matches either; limits of the
+	// filters (Filter may carry limit 0) mean nothing to an allow/deny list
+	Filter2 *simrt.FilterSpec `json:"filter2,omitempty"`
 }
 
 type mwNIP11 struct {
@@ -185,6 +189,15 @@ func (e mwEngine) Gen(t *rapid.T, tier string) any {
 						}
 					}
 					m.Filter = &f
+					if rapid.IntRange(0, 2).Draw(t, "flist") == 0 {
+						f2 := simrt.FilterSpec{Kinds: []int64{0}}
+						if rapid.IntRange(0, 1).Draw(t, "f2auth") == 0 {
+							f2 = simrt.FilterSpec{Authors: []string{ref.Authors[1].Pubkey}, Kinds: []int64{1}}
+						}
+						m.Filter2 = &f2
+						z := int64(rapid.IntRange(0, 1).Draw(t, "flim"))
+						m.Filter.Limit = &z
+					}
 				}
 				c.Stack = append(c.Stack, m)
 			}
@@ -494,11 +507,11 @@ func (st *mwState) client(m mocrelay.ClientMsg, t0, t1 time.Time) verdict {
 			}, t0, t1)
 		}
 	case "allow":
-		if isEv && !ref.Match(ev.Event, s.Filter.Filter()) {
+		if isEv && !ref.Match(ev.Event, s.Filter.Filter()) && !(s.Filter2 != nil && ref.Match(ev.Event, s.Filter2.Filter())) {
 			return vReject
 		}
 	case "deny":
-		if isEv && ref.Match(ev.Event, s.Filter.Filter()) {
+		if isEv && (ref.Match(ev.Event, s.Filter.Filter()) || s.Filter2 != nil && ref.Match(ev.Event, s.Filter2.Filter())) {
 			return vReject
 		}
 	case "maxsubs":
@@ -589,8 +602,14 @@ func buildMw(s *MwSpec, reg *prometheus.Registry) mocrelay.Middleware {
 	case "createdat":
 		return mocrelay.Middleware(mocrelay.NewEventCreatedAtMiddleware(time.Duration(s.From)*time.Second, time.Duration(s.To)*time.Second))
 	case "allow":
+		if s.Filter2 != nil {
+			return mocrelay.Middleware(mocrelay.NewRecvEventAllowFilterMiddleware(mocrelay.NewReqFiltersEventLimitMatcher([]*mocrelay.ReqFilter{s.Filter.Filter(), s.Filter2.Filter()})))
+		}
 		return mocrelay.Middleware(mocrelay.NewRecvEventAllowFilterMiddleware(mocrelay.NewReqFilterMatcher(s.Filter.Filter())))
 	case "deny":
+		if s.Filter2 != nil {
+			return mocrelay.Middleware(mocrelay.NewRecvEventDenyFilterMiddleware(mocrelay.NewReqFiltersEventLimitMatcher([]*mocrelay.ReqFilter{s.Filter.Filter(), s.Filter2.Filter()})))
+		}
 		return mocrelay.Middleware(mocrelay.NewRecvEventDenyFilterMiddleware(mocrelay.NewReqFilterMatcher(s.Filter.Filter())))
 	case "logging":
 		return mocrelay.Middleware(mocrelay.NewLoggingMiddleware(slog.New(slog.NewTextHandler(io.Discard, nil))))
@@ -1169,6 +1188,9 @@ func stackDesc(stack []MwSpec) string {
 			p = append(p, fmt.Sprintf("createdat[%d,%d]", m.From, m.To))
 		case "allow", "deny":
 			fj, _ := json.Marshal(m.Filter)
+			if m.Filter2 != nil {
+				fj, _ = json.Marshal([]*simrt.FilterSpec{m.Filter, m.Filter2})
+			}
 			p = append(p, m.Kind+string(fj))
 		case "logging", "prom":
 			p = append(p, m.Kind)
